@@ -867,11 +867,13 @@ func (fr *frame) callFuncVar(st *State, call *ast.CallExpr, v *types.Var, fv *Va
 	if c := fc.reg.contracts[key]; c != nil {
 		return fr.applyContractSig(st, call, key, sig, fc.reg.pkgs[v.Pkg().Path()], c, nil, args)
 	}
-	// contract attached to the named function type
+	// contract attached to the named function type: `func (f T) call(args) ...`
 	if n, ok := v.Type().(*types.Named); ok {
 		k2 := n.Obj().Pkg().Path() + "." + n.Obj().Name()
-		if c := fc.reg.contracts[k2]; c != nil {
-			return fr.applyContractSig(st, call, k2, sig, fc.reg.pkgs[n.Obj().Pkg().Path()], c, fv, args)
+		for _, k := range []string{k2 + ".call", k2} {
+			if c := fc.reg.contracts[k]; c != nil {
+				return fr.applyContractSig(st, call, n.Obj().Name(), sig, fc.reg.pkgs[n.Obj().Pkg().Path()], c, fv, args)
+			}
 		}
 	}
 	panic(unsupported("call through function variable " + v.Name() + " without contract"))
